@@ -13,6 +13,8 @@ Definition wf_bytesb (l : bytes) : bool := forallb is_byte l.
    foreign bytes when cap > len).  No default value hides it. *)
 Definition get (d : bytes) (i : nat) : option byte := nth_error d i.
 
+Definition nthb (d : bytes) (i : nat) : byte := nth i d 0%N.
+
 (* m[lo:hi] for hi <= len *)
 Definition sub (d : bytes) (lo n : nat) : bytes := firstn n (skipn lo d).
 
